@@ -183,17 +183,19 @@ def gen_scenario(rng, nfiles=None, shared=False):
             "sched": rng.randrange(1 << 30), "nthreads": rng.choice([1, 2, 4, 8])}
 
 
-def gen_shared_scenario(rng):
+def gen_shared_scenario(rng, fillers=0):
     """two (or three) index files with byte-identical content in one directory: with by-hash they share their
-    by-hash/<Algo>/<hash> target and URL (as the identical empty Translation / dep11 files of real archives do)"""
+    by-hash/<Algo>/<hash> target and URL (as the identical empty Translation / dep11 files of real archives do);
+    `fillers` further index files with distinct contents make the queue longer than the task window of download()
+    (128), so that some files are only dequeued after others have finished"""
     tagc = [100]
-    n = rng.randint(2, 3)
+    n = rng.randint(2, 3) if not fillers else rng.randint(2, 5)
     size = rng.randint(4, 40)
     algs = rng.sample(ALGOS, rng.randint(1, 2))
     d = "dists/sh/main/i18n"
     descs = []
     for k in range(n):
-        name = f"{d}/Translation-{'abc'[k]}.xz"
+        name = f"{d}/Translation-{'abcde'[k]}.xz"
         ctor = None
         adds = []
         for a in algs:
@@ -203,6 +205,15 @@ def gen_shared_scenario(rng):
             else:
                 adds.append([name, size, a, h, True])
         descs.append({"ctor": ctor, "adds": adds, "ignore_errors": False})
+    filler_info = {}
+    for k in range(fillers):
+        name = f"{d}/Translation-f{k:03d}.xz"
+        fsize = rng.randint(1, 30)
+        descs.append({"ctor": ["from_hashed_path", name, fsize, algs[0], f"{algs[0].lower()}f{k}", True], "adds": [], "ignore_errors": False})
+        filler_info[name] = (fsize, 200 + k)
+        filler_info[f"{d}/by-hash/{algs[0]}/{algs[0].lower()}f{k}"] = (fsize, 200 + k)
+    if fillers:
+        rng.shuffle(descs)
     date = rng.choice(DATES)
     content_tag = 77
 
@@ -223,9 +234,15 @@ def gen_shared_scenario(rng):
         for v in f.compression_variants.values():
             for p in v.get_all_paths():
                 p = str(p)
-                if p not in scripts:
+                if p in filler_info:
+                    fsize, ftag = filler_info[p]
+                    scripts[p] = [Resp("ok", announced=fsize, date=date, data=gen_content(ftag, fsize), chunks=split_chunks(rng, fsize), tag=ftag)
+                                  for _ in range(3)]
+                elif p not in scripts:
                     if "/by-hash/" in p:
-                        scripts[p] = [bad() if rng.random() < 0.45 else good() for _ in range(rng.randint(1, 6))] + [good() for _ in range(12)]
+                        # (with fillers the siblings answer at once: a failing attempt sleeps 5 s of virtual time, which only
+                        # passes when nothing else can run, so a retried sibling would always finish last)
+                        scripts[p] = [bad() if rng.random() < (0.45 if not fillers else 0.0) else good() for _ in range(rng.randint(1, 6))] + [good() for _ in range(12)]
                     else:
                         scripts[p] = [good() for _ in range(12)]
     return {"descs": descs, "fs": [], "scripts": scripts, "sched": rng.randrange(1 << 30), "nthreads": rng.choice([2, 4, 8]), "shared": True}
@@ -362,6 +379,10 @@ def monitor_c05(sc, real, files):
             else:
                 if src != declared:
                     out.append(("size-at-report", f"{kind} variant {vj['path']} declared {declared} but target size {src}"))
+                elif any(s != declared for s in sizes):
+                    # "unmodified" is reported after the aliases were (re)linked: every path the variant is published under
+                    # must hold the file at that moment, exactly as for a downloaded one
+                    out.append(("size-at-report", f"{kind} variant {vj['path']} declared {declared} but alias sizes {sizes}"))
     # entry-level declared size: a reported placeholder variant (declared 0) whose path is also the path of a
     # sized variant of the same file must still have that declared size on disk
     for kind, vj, sizes, src in real["probes"]:
